@@ -70,6 +70,23 @@ pub trait TranslationMemory {
     }
 }
 
+// The translators compute instruction, fall-through and return addresses as
+// `address + offset`, for offsets up to a few bytes behind the block. Refuse a
+// block which does not lie below the end of the address space, instead of
+// overflowing.
+pub(crate) fn ensure_block_in_address_space(address: u64, length: usize) -> Result<(), Error> {
+    match (length as u64)
+        .checked_add(8)
+        .and_then(|length| address.checked_add(length))
+    {
+        Some(_) => Ok(()),
+        None => Err(Error::Custom(format!(
+            "Block of {} bytes at 0x{:x} reaches the end of the address space",
+            length, address
+        ))),
+    }
+}
+
 // A convenience function for turning unhandled instructions into intrinsics
 pub(crate) fn unhandled_intrinsic(
     control_flow_graph: &mut il::ControlFlowGraph,
